@@ -123,11 +123,11 @@ func reposMapDecode(b []byte) (ReposMap, error) {
 	}
 
 	// Length
-	l := r.uvarint()
+	l := r.length()
 	m := make(map[uint32]MinimalRepoListEntry, l)
 
 	// Pre-allocate slice for all branches
-	allBranchesLen := r.uvarint()
+	allBranchesLen := r.length()
 	allBranches := make([]RepositoryBranch, 0, allBranchesLen)
 
 	for range l {
@@ -137,7 +137,7 @@ func reposMapDecode(b []byte) (ReposMap, error) {
 		if readIndexTime {
 			indexTimeUnix = int64(r.uvarint())
 		}
-		lb := r.uvarint()
+		lb := r.length()
 		for range lb {
 			allBranches = append(allBranches, RepositoryBranch{
 				Name:    r.str(),
@@ -163,7 +163,23 @@ type binaryReader struct {
 
 func (b *binaryReader) uvarint() int {
 	x, n := binary.Uvarint(b.b)
-	if n < 0 {
+	if n <= 0 {
+		// n == 0: the input ends in the middle of a varint.
+		b.b = nil
+		b.err = fmt.Errorf("malformed %s", b.typ)
+		return 0
+	}
+	b.b = b.b[n:]
+	return int(x)
+}
+
+// length reads a uvarint that is used as a length or an element count. Every
+// byte and every element takes at least one byte of input, so a value larger
+// than the remaining input is malformed. This bounds what callers allocate
+// and how often they loop, and keeps the value a non-negative int.
+func (b *binaryReader) length() int {
+	x, n := binary.Uvarint(b.b)
+	if n <= 0 || x > uint64(len(b.b)-n) {
 		b.b = nil
 		b.err = fmt.Errorf("malformed %s", b.typ)
 		return 0
@@ -173,7 +189,7 @@ func (b *binaryReader) uvarint() int {
 }
 
 func (b *binaryReader) str() string {
-	l := b.uvarint()
+	l := b.length()
 	if l > len(b.b) {
 		b.b = nil
 		b.err = fmt.Errorf("malformed %s", b.typ)
